@@ -26,6 +26,16 @@ CLAIMED = {
    text="TLC enumerates all kinds x slot contents x {WithTokens, WithPositions} subsets and prescribes the labelled entries owed (each non-empty slot once under its own field name, Val for byte values, tokens/positions only when requested, nothing else). The real dump is parsed as Go syntax and compared entry by entry (missing, extra, duplicate, mislabelled, wrong content). For parsed programs the parsed dump is compared with a reflection walk of the tree under all four option combinations, including token ids, values, positions and free-floating lists.",
    note="Trusted: go/parser as judge of Go syntax (the dump is wrapped as a list element because the dumper ends every literal with a comma), NodeSchema.tla, reflection comparer in synth.go. Empty lists may be shown or omitted (the property speaks of non-empty fields).",
    design="5 (C16), 3.5"),
+ "C09": dict(
+   technique="TLA+ model checking of Version.tla (supported set vs. the two textual copies of the ranges, total order, class soundness; TLC exhaustive on 13x13 versions) + replay of the exported version/strings tables on version.New/Validate/Compare/InRange/parser.Parse + metamorphic comparison of all 12 supported versions per input",
+   text="TLC checks on all pairs of D x D (D = 0..12, mapped order-preservingly to uint64 incl. 2^32+5 and 2^64-1) that validation and parser dispatch both equal the supported set written once in the specification, that the comparison is a total order and that classes (family, >= 7.3) are sound; the exported table is replayed on the real code (Validate, Parse -> tree or ErrVersionOutOfRange, Compare/Less/..., InRange) and every string of <= 4 (thorough 5) symbols over {0,1,7,9,.,x,+,-,space} is replayed on version.New (digits.digits must parse to the numeric pair). Metamorphic part: each input under all 12 versions and nil; same class => identical tree fingerprint and error list; nil == 7.4.",
+   note="Trusted: the order-preserving abstraction D -> uint64, the analyze fingerprint. Malformed version strings are only required not to crash (the property does not say they are rejected). Metamorphic inputs: corpus + heredoc inputs sensitive to the 7.3 rule.",
+   design="5 (C09), 3.7"),
+ "C13": dict(
+   technique="TLA+ model checking of Pipeline.tla (observers are UNCHANGED on the tree; TLC enumerates all operation histories up to the bound) + replay of every history on real trees with deep-fingerprint and output comparison after each step",
+   text="TLC enumerates every history over {print, dump x4 option sets, traverse, resolve} up to length 3 (quick) / length 5 over the four base observers plus length 3 over all seven (thorough) and checks Pure/SameAsFresh on the specification; each history is replayed on the tree of each program: after every operation its output must equal its output on a freshly parsed tree and the deep fingerprint (kinds, fields, values, tokens, positions, free-floating lists, slice len/cap contents, object identities) and the source buffer must be unchanged.",
+   note="Trusted: reflection fingerprint in harness/cmd/worker/history.go. Histories are bounded; programs come from the corpus and generated programs.",
+   design="5 (C13), 3.8"),
 }
 
 REASONS_PENDING = "check not built yet in this round; see DESIGN.md section 9 for the construction order"
